@@ -587,6 +587,28 @@ class RegistryEngine:
                     break
             if violation:
                 break
+            # the package-level helpers read the same registry
+            import nanite.model as nm
+            for k, sp in ref.items():
+                try:
+                    okl = (list(nm.get_init_parms(k)) == KEYS
+                           and nm.get_parm_name(k, "R") == "Tip Radius"
+                           and nm.get_parm_unit(k, "E") == "Pa"
+                           and nm.get_model_by_name(
+                               "harness model " + k) is reg[k]
+                           and nm.get_anc_parm_keys(k)
+                           == reg[k].get_anc_parm_keys())
+                except _caught() as e:
+                    okl = False
+                    feats["exc"] = type(e).__name__
+                if not okl and reg[k].model_name == "harness model " + k:
+                    violation = viol(
+                        "M1", "package-helpers", feats,
+                        f"nanite.model helper functions disagree with the "
+                        f"registered model {k}", i)
+                    break
+            if violation:
+                break
             for k, md in baseline.items():
                 if reg.get(k) is not md:
                     violation = viol("M1", "shipped-model-replaced", feats,
